@@ -48,7 +48,7 @@ class Check(FormulaCheck):
     RULE = ('case = one formula over a seeded string (length 0-60 over ASCII letters, digits, punctuation, spaces, control characters, accented and CJK letters incl. three beyond U+FFFF) '
             'with counts 0..len+5 and negatives, (old,new,k) with non-self-overlapping old, item lists with blanks (flat and nested). '
             'non-trivial = result compared with the model; distinct = distinct (function/identity, arguments).')
-    ASSUMPTIONS = ('characters whose case mapping changes length are outside the alphabet; counts are integers',
+    ASSUMPTIONS = ('characters whose case mapping changes length are outside the alphabet; counts are integers, except that negative fractions are negative counts too',
                    'TEXTJOIN/CONCATENATE items are text or blank; empty text is text and is not used together with ignore_empty=TRUE',
                    'PROPER upper-cases exactly after a non-letter is asserted on ASCII-only strings; CLEAN need not remove U+007F')
 
@@ -78,7 +78,7 @@ class Check(FormulaCheck):
     def slices(self, rnd, s):
         L = len(s)
         rec = self.rec
-        counts = sorted(set([0, 1, L, L + 1, L + 5, max(L - 1, 0), -1, -3] + [rnd.randint(0, L + 5) for _ in range(4)]))
+        counts = sorted(set([0, 1, L, L + 1, L + 5, max(L - 1, 0), -1, -3, rnd.choice([-0.5, -0.25, -1e-9, -2.5, -0.999, -1.5, -1e-300])] + [rnd.randint(0, L + 5) for _ in range(4)]))
         for n in counts:
             l = self.ev('LEFT(v_s,v_n)', v_s=s, v_n=n)
             r = self.ev('RIGHT(v_s,v_n)', v_s=s, v_n=n)
